@@ -102,7 +102,7 @@ PROPS = {
     },
     "C04": {
         "title": "Set algebra (union, intersection, difference, complement, cross) is pointwise",
-        "rules": [rules_ftype.rule_mix_sets, callers_for("C04"), on_program(rules_level.rule_next_level), on_program(rules_level.rule_terminal_type), on_program(rules_level.rule_operand_unpack), on_program(rules_level.rule_chain_args), on_program(rules_level.rule_position_kind)],
+        "rules": [rules_ftype.rule_mix_sets, callers_for("C04"), on_program(rules_level.rule_next_level), on_program(rules_level.rule_terminal_type), on_program(rules_level.rule_operand_unpack), on_program(rules_level.rule_chain_args), on_program(rules_level.rule_position_kind), rules_orphan.rule_terminal_operands],
         "explanation": STRUCTURAL + ". C04: cross-forest clause (every handle in union/intersection/difference/complement/cross/copy is used only with its own forest, for every assignment of operand and result forests; "
                        "what is returned, stored or chained in the result forest was produced there), immutability clause (operations cannot reach the primitives that rewrite packed nodes), and the level discipline of the level-synchronised recursion "
                        "(a set-style next level k-1 is computed only from a level that is non-negative on every path; relation levels go through MXD_levels::downLevel — the cross-forest copy broke this when entered at a primed level, defect D11).",
